@@ -209,7 +209,9 @@ theorem rstBlock_spec (s : Tcb) (seg : Hdr) : ∃ r, rstBlock s seg = .ok (s, r)
   split
   · exact ⟨_, rfl⟩
   · split
-    · split <;> exact ⟨_, rfl⟩
+    · split
+      · exact ⟨_, rfl⟩
+      · split <;> exact ⟨_, rfl⟩
     · split <;> exact ⟨_, rfl⟩
     all_goals exact ⟨_, rfl⟩
 
